@@ -33,7 +33,9 @@ RULE = (
     "= one (library, suffix, composition pair) - compositions include zero densities, nuclides missing from the library and the empty "
     "map. Non-trivial = at least two libraries with data / a composition with >=1 nuclide present in the library."
 )
-TOLERANCES = {"stored_data": "exact (bytes)", "macro_rel": 1e-12, "chi_rel": 1e-12}
+TOLERANCES = {"stored_data": "exact (dtype, shape and bytes of every array; type and value of every scalar)",
+              "macro_rel": 1e-12, "macro_rel_note": "relative to the sum of magnitudes of the summed terms; x4 for sums recomputed from several "
+              "armi calls, x8 for removal/diffusion, x16 for linearity of the creator's outputs", "chi_rel": 1e-9}
 EXHAUSTIVE = {"quick": False, "thorough": False}
 EXHAUSTIVE_PART = "all merge orders (m! <= 120) of every generated library set; all 2- and 3-subsets of the 6 fixture libraries in all orders"
 TIMEOUT = {"quick": 600, "thorough": 3600}
@@ -48,11 +50,11 @@ FLOORS = {
     "quick": {"merge.order": 400, "merge.nuclide-identity": 2000, "merge.order-independence": 300, "merge.library-level": 400,
               "conflict.refused": 60, "conflict.unchanged-check": 60, "macro.groupconstant": 500, "macro.linearity": 300,
               "macro.additivity": 300, "macro.creator": 60, "macro.derived": 60, "macro.totalscatter": 100, "macro.energy": 60,
-              "macro.empty": 20, "fixture.order": 60, "fixture.conflict": 4, "fixture.macro": 20},
+              "macro.empty": 20, "fixture.order": 100, "fixture.conflict": 4, "fixture.macro": 20},
     "thorough": {"merge.order": 8000, "merge.nuclide-identity": 40000, "merge.order-independence": 6000, "merge.library-level": 8000,
                  "conflict.refused": 1200, "conflict.unchanged-check": 1200, "macro.groupconstant": 10000, "macro.linearity": 6000,
                  "macro.additivity": 6000, "macro.creator": 1200, "macro.derived": 1200, "macro.totalscatter": 2000, "macro.energy": 1200,
-                 "macro.empty": 400, "fixture.order": 600, "fixture.conflict": 4, "fixture.macro": 100},
+                 "macro.empty": 400, "fixture.order": 300, "fixture.conflict": 4, "fixture.macro": 100},
 }
 
 # (armi nuclide name, 4-character library label) - the generator's own table, confirmed against armi at shard start
@@ -1198,7 +1200,7 @@ def judge_macros(rec, rng, lib, suffix, table, witness, hit="macro", haveGamma=F
                         num = num + np.asarray(table[n]["chi"]) * dens[n] * src
                         den += dens[n] * src
                 wantChi = num / den if den else np.zeros(ng)
-                if not close(mac.chi, wantChi, np.maximum(np.abs(wantChi), 1e-30), 1e3 * TOLERANCES["chi_rel"]):
+                if not close(mac.chi, wantChi, np.maximum(np.abs(wantChi), 1e-30), TOLERANCES["chi_rel"]):
                     rec.violation("macro/derived/chi", "macros.chi is not the fission-source weighted mean for %s" % nm_, w)
             if len(macs) == 3:
                 rec.hit(hit + ".linearity")
